@@ -395,6 +395,66 @@ theorem C06_no_reuse_seq (V : View) (steps : List (Request × List Coin)) (hV : 
     (sendSeq V steps).Pairwise (fun a b => ∀ c₁ ∈ a.ins, ∀ c₂ ∈ b.ins, c₁.op ≠ c₂.op) :=
   (sendSeq_avoids steps V [] hV hok (by intro o ho; cases ho)).2
 
+/-! ## The fuel bound of the author loop is not a truncation -/
+
+theorem fetch_snd_length (target : Int) (taken rest : List Coin) : (fetch target taken rest).2.length ≤ rest.length := by
+  obtain ⟨k, hk⟩ := fetch_spec target taken rest
+  rw [hk]; simp
+
+theorem fetch_hungry {target : Int} {taken : List Coin} (c : Coin) (cs : List Coin) (h : total taken < target) :
+    (fetch target taken (c :: cs)).2.length ≤ cs.length := by
+  simp only [fetch, h, if_true]
+  exact fetch_snd_length _ _ _
+
+/-- In a state where the inputs handed out so far do not reach the target, `rest.length + 1` iterations suffice. -/
+theorem author_fuel_hungry (r : Request) : ∀ (fuel : Nat) (fee : Int) (taken rest : List Coin) (k : Nat),
+    total taken < sumOutputs r.outputs + fee → rest.length + 1 ≤ fuel →
+    author r (fuel + k) fee taken rest = author r fuel fee taken rest := by
+  intro fuel
+  induction fuel with
+  | zero => intro fee taken rest k _ h; omega
+  | succ f ih =>
+    intro fee taken rest k hh hf
+    have e : f + 1 + k = (f + k) + 1 := by omega
+    rw [e]
+    cases rest with
+    | nil =>
+      simp only [author, fetch]
+      simp [hh]
+    | cons c cs =>
+      have hlen := fetch_hungry (target := sumOutputs r.outputs + fee) c cs hh
+      simp only [author]
+      generalize fetch (sumOutputs r.outputs + fee) taken (c :: cs) = p at hlen
+      obtain ⟨taken', rest'⟩ := p
+      simp only at hlen ⊢
+      split
+      · rfl
+      · split
+        · rename_i hcont
+          apply ih
+          · omega
+          · simp only [List.length_cons] at hf; omega
+        · rfl
+
+/-- **The fuel bound of `author` is not a truncation**: with `rest.length + 2` iterations the loop of
+`NewUnsignedTransaction` has always finished; more fuel never changes the result. -/
+theorem C06_author_fuel_enough (r : Request) (fee : Int) (taken rest : List Coin) (k : Nat) :
+    author r (rest.length + 2 + k) fee taken rest = author r (rest.length + 2) fee taken rest := by
+  have e : rest.length + 2 + k = (rest.length + 1 + k) + 1 := by omega
+  rw [e]
+  have hlen := fetch_snd_length (sumOutputs r.outputs + fee) taken rest
+  simp only [author]
+  generalize fetch (sumOutputs r.outputs + fee) taken rest = p at hlen
+  obtain ⟨taken', rest'⟩ := p
+  simp only at hlen ⊢
+  split
+  · rfl
+  · split
+    · apply author_fuel_hungry
+      · omega
+      · omega
+    · rfl
+
 /-! ## Non-vacuity and the finding F7 on the code before fix 80523df -/
 namespace Example
 
